@@ -250,12 +250,14 @@ macro_rules! block_harness {
             assert!(is_one_block_string_token(&out, len), "C16: multi-line string is emitted as exactly one block-string token");
             #[cfg(verif_mutant)]
             assert!(len == s.n + 6, "mutant oracle (triple quotes never escaped): must be refuted");
-            kani::cover!($known || (s.n == 3 && s.chars[0] == '"' && s.chars[1] == '"'), "two quotes inside the text");
+            kani::cover!($known || (s.n == $n && s.chars[0] == '"'), "a quote inside the text");
             kani::cover!(!$known || s.chars[s.n - 1] == '\\', "text ending in a backslash");
             core::mem::forget(w);
         }
     };
 }
+block_harness!(print_string_block_n2_outside_known, 2, 14, false);
+block_harness!(print_string_block_n2_known_trailing_quote_backslash, 2, 14, true);
 block_harness!(print_string_block_n3_outside_known, 3, 16, false);
 block_harness!(print_string_block_n3_known_trailing_quote_backslash, 3, 16, true);
 block_harness!(print_string_block_n4_outside_known, 4, 18, false);
